@@ -366,9 +366,27 @@ pub fn run(check: &dyn Check, cli: &Cli) -> i32 {
     ev.set("executions_by_scheduler", json!(by_kind));
     ev.set("units", json!({"count": units, "executions_per_unit": iters, "max_steps_per_execution": sim::MAX_STEPS}));
     ev.set("components", check.components());
-    if let Some(r) = runs.first() {
-        ev.samples.push(json!({"unit": 0, "scheduler": r.kind.name(), "params": r.params, "execution": 0, "event_log": r.out.sample}));
+    // samples: the first execution of the first units whose first execution
+    // was non-trivial (falling back to unit 0), one per scheduler kind
+    let mut sampled: BTreeSet<String> = BTreeSet::new();
+    for r in &runs {
+        if ev.samples.len() >= 3 {
+            break;
+        }
+        let nontrivial = r.out.execs.first().is_some_and(|e| e.nontrivial);
+        if nontrivial && !r.out.sample.is_empty() && sampled.insert(r.kind.name()) {
+            ev.samples.push(json!({"unit": r.index, "unit_seed": format!("{:#x}", r.seed), "scheduler": r.kind.name(), "params": r.params, "execution": 0, "event_log": r.out.sample}));
+        }
     }
+    if ev.samples.is_empty() {
+        if let Some(r) = runs.first() {
+            ev.samples.push(json!({"unit": 0, "unit_seed": format!("{:#x}", r.seed), "scheduler": r.kind.name(), "params": r.params, "execution": 0, "event_log": r.out.sample}));
+        }
+    }
+    ev.set(
+        "anomalies",
+        json!({"count": 0, "note": "every library call in these workloads has its outcome defined by the property being checked, so a panic or an unexpected error is a violation, not an anomaly; hangs (deadlock, step bound) are reported as violations of the property being checked"}),
+    );
 
     // ---- failures: first of each (class, sig), at most 3
     let mut seen: BTreeSet<(String, String)> = BTreeSet::new();
